@@ -13,7 +13,7 @@ RULE = ("Hypothesis-generated systems (2-4 atom types, comb-rule 1/2, 1-3 molecu
         "1-4 atoms and optional virtual site, linear/branched/ring, [molecules] lists with repeated names and "
         "counts 1-3) x option sets (-box cubic/rectangular or -dens, -c/-mc full/partial, -gs, -grid, -sf, -mf, "
         "-nr, -start, -res) x polyply RNG seed x (one case in three) a scripted pattern of rejected placement steps, "
-        "complete structures that carry a small (<= 1.2 nm) cell, and a flavour in which supplied and -res residues alternate along chains; the written .gro is parsed independently and compared with the "
+        "complete structures that carry a small (<= 1.2 nm) cell, .pdb start structures with and without a CRYST1 record, and a flavour in which supplied and -res residues alternate along chains; the written .gro is parsed independently and compared with the "
         "expansion of [molecules] and with the expected box. non-trivial = (>=2 molecule types used or a "
         "repeated name) and a multi-atom residue; distinct = spec hash")
 ASSUMPTIONS = ["independent .gro reader pbt/itp.py", "dilute boxes (placement always converges; time-outs are inconclusive)",
@@ -116,12 +116,20 @@ def _strategy(draw):
         opts["build_res"] = [draw(st.sampled_from(resn))]
     if mixed or draw(st.integers(0, 2)) == 0:
         cbox = opts.get("box") or [round(edge + 0.5, 2)] * 3
-        if draw(st.integers(0, 3)) == 0:
+        # the start structure is a .gro file, a .pdb file with a CRYST1 record, or a .pdb file without one (which
+        # defines no box: -box / -dens decide, and the coordinates lie inside that box)
+        fmt = draw(st.sampled_from(["gro", "gro", "gro", "pdb", "pdb_nocryst"]))
+        if fmt == "pdb_nocryst":
+            cbox = opts.get("box") or [round(target - 0.05, 2)] * 3
+        elif draw(st.integers(0, 3)) == 0:
             # differs from -box: the structure's box wins
             cbox = [round(edge + 1.0, 2), round(edge + 1.0, 2), round(edge + 2.0, 2)]
         spec["coords"] = draw(supplied_coords(spec, cbox, skip=opts.get("build_res", ())))
         crd = spec["coords"]
-        if crd and crd["nres"] == crd["total_res"] and crd["mode"] == "c" and not opts.get("build_res") \
+        if crd and fmt != "gro":
+            crd["format"] = "pdb"
+            crd["cryst"] = fmt == "pdb"
+        if crd and fmt != "pdb_nocryst" and crd["nres"] == crd["total_res"] and crd["mode"] == "c" and not opts.get("build_res") \
                 and len(crd["atoms"]) <= 1000 and draw(st.integers(0, 2)) == 0:
             # a complete structure that carries a small cell (e.g. a single molecule dumped from a crystal, not
             # wrapped): nothing is built, the structure and its box are handed on as they are
@@ -135,8 +143,9 @@ def _strategy(draw):
     if draw(st.integers(0, 3)) == 0 and not spec.get("small_cell"):
         # the grid has to fit the box that is in effect (the input structure's box wins)
         dens_edge = [round(target - 0.02, 2)] * 3 if box_kind == "dens" else None
-        box = (spec["coords"]["box"] if spec.get("coords") else None) or opts.get("box") or dens_edge or [edge] * 3
-        box = [min(a, b) for a, b in zip(box, opts.get("box") or box)] if spec.get("coords") else box
+        has_box = spec.get("coords") and spec["coords"].get("cryst", True)
+        box = (spec["coords"]["box"] if has_box else None) or opts.get("box") or dens_edge or [edge] * 3
+        box = [min(a, b) for a, b in zip(box, opts.get("box") or box)] if has_box else box
         # distinct points of a 1 nm lattice (a grid with coinciding points cannot host all molecules); the
         # lattice starts half a nm from the lower faces or is shifted so that its last points lie 0.1 nm
         # below the upper faces
@@ -178,7 +187,7 @@ def strategy(tier):
 
 def expected_box(spec):
     opts = spec["opts"]
-    if spec.get("coords"):
+    if spec.get("coords") and spec["coords"].get("cryst", True):
         return spec["coords"]["box"], "structure"
     if opts.get("box") is not None:
         return opts["box"], "option"
@@ -243,6 +252,8 @@ def check(spec, ctx):
     if len(got_box) > 3 and any(abs(v) > 1e-9 for v in got_box[3:]):
         raise Violation("box:triclinic_terms", f"{got_box}")
     ctx.label("box_from_" + source)
+    if spec.get("coords") and spec["coords"].get("format") == "pdb":
+        ctx.label("pdb_start_structure" + ("" if spec["coords"].get("cryst", True) else "_without_cell"))
     used = [n for n, _ in spec["molecules"]]
     if spec.get("coords"):
         ctx.label("coords_" + spec["coords"]["mode"] + ("_partial" if spec["coords"]["nres"] < spec["coords"]["total_res"] else "_full"))
